@@ -51,6 +51,14 @@ def scope(model, family: str, schema_id: str, size: int, **over) -> dict:
             "texts": ["a", "bc"],
             "marksets": _ms(model, [], [EM], [EM, STRONG]),
         }
+    elif family == "links":  # two different, mutually exclusive marks of one type on adjacent text
+        LINK2 = ("link", {"href": "v", "title": None})
+        s = {
+            "types": ["doc", "paragraph", "text"],
+            "texts": ["a", "bc"],
+            "marksets": _ms(model, [], [LINK], [LINK2], [LINK, EM], [EM]),
+            "max_children": 3,
+        }
     elif family == "lists":
         s = {
             "types": ["doc", "paragraph", "bullet_list", "ordered_list", "list_item", "text"],
@@ -177,7 +185,7 @@ def scope(model, family: str, schema_id: str, size: int, **over) -> dict:
 
 def families_for(schema_id: str) -> list[str]:
     return {
-        "basic": ["blocks", "blocks2", "inline", "inline_s", "astral"],
+        "basic": ["blocks", "blocks2", "inline", "inline_s", "astral", "links"],
         "list": ["blocks", "blocks2", "inline", "inline_s", "lists", "lists_q", "astral"],
         "strict_hb": ["strict"],
         "title": ["title"],
